@@ -13,6 +13,8 @@ FIELD_IDENTS = ["name", "user_account_id", "field2", "a1_b2", "x", "a__b", "_pri
 VARIANT_IDENTS = ["Active", "HTTPError", "XmlHttpRequest", "A", "V2", "Value_With_Underscore", "lowercase", "SCREAMING", "FirstValue", "IOError2"]
 RENAME_VALUES = ["customName", "id", "user-id", "USER-ID", "with space", "naïve", "日本", "skip", "rename_all", "skip_serializing", "do_skip_me",
                  "rename", "say \"hi\"", "back\\slash", "a=b", "a, b", "renamed_all", "default", "1st",
+                 # every kind of quote and what a template literal would read
+                 "don't-know", "it's", "'quoted'", "back`tick", "${x}", "a'b\"c", "tab\there", "semi;colon", "slash/star*/", "//comment",
                  # names made of digits: as a bare key a number names its canonical spelling, not its text
                  "404", "007", "12345678901234567890123", "1e3", "0x10", "1.50", "-1", "0"]
 
